@@ -828,8 +828,12 @@ func runSched(t *SchedTrace, pol sched.Policy, schedSeed uint64, replay [][]sche
 	for i := range ro.Results {
 		for j := range ro.Results[i] {
 			if j >= len(results[i]) || results[i][j] != ro.Results[i][j] {
+				got := "<missing>"
+				if j < len(results[i]) {
+					got = results[i][j]
+				}
 				so.Violation = viol("differs-from-sequential", t.Programs[i][j].Kind+"/cold-reference",
-					fmt.Sprintf("task %d op %d: concurrent result %q, sequential cold process %q", i, j, results[i][j], ro.Results[i][j]))
+					fmt.Sprintf("task %d op %d: concurrent result %q, sequential cold process %q", i, j, got, ro.Results[i][j]))
 				return so
 			}
 		}
@@ -846,47 +850,25 @@ func runSched(t *SchedTrace, pol sched.Policy, schedSeed uint64, replay [][]sche
 		so.Violation = viol("lazy-table-content-depends-on-schedule", "tables", "after the concurrent phase, basepoint operations that together read every entry of the lazily built tables give results different from those of a sequential cold process: a table entry was built or published wrongly under this schedule")
 		return so
 	}
-	// oracle 2: constructed exactly once. Counted only where it is sound to count:
-	// statements that WRITE (assignment, inc/dec, pointer-method call - not a mere
-	// address-of) a composite expression rooted at a package-level variable that the
-	// reference process identified as a lazily built constant (changed by the first
-	// use, never again by warm calls or calls on fresh arguments), that run cold but
-	// neither warm nor on fresh arguments, and that ran at least twice as often as in
-	// the sequential cold run (one whole extra construction). Bookkeeping scalars,
-	// caches, pools and statistics never qualify.
-	lazy := map[string]bool{}
-	for _, n := range ro.LazyConst {
-		lazy[n] = true
-	}
-	firstUse := 0
-	for s, sd := range field.VerifSites {
-		if !sd.Write || !lazy[sd.Root] || s >= len(ro.Cold) {
-			continue
-		}
-		if ro.Warm[s] == 0 && ro.Cold[s] > 0 && (s >= len(ro.Fresh) || ro.Fresh[s] == 0) {
-			firstUse++
-			var conc uint32
-			tasksTouching := 0
-			for _, c := range res.Counts {
-				conc += c[s]
-				if c[s] > 0 {
-					tasksTouching++
-				}
-			}
-			if conc >= 2*ro.Cold[s] {
-				so.Violation = viol("first-use-construction-not-exactly-once", sd.File,
-					fmt.Sprintf("the lazily built constant %s was constructed more than once: the write at %s executed %d times (by %d tasks) under this schedule, %d times in a sequential cold run", sd.Root, siteName(s), conc, tasksTouching, ro.Cold[s]))
-				return so
-			}
-		}
-	}
-	so.Stats["first_use_write_sites"] = int64(firstUse)
-	// oracle 2b: construction in private memory that is published afterwards has no
-	// package-state write to count, so the amount of first-use-only work is compared
-	// as well: statements that a sequential cold run executes but a warm run does not
-	// (cold > 0, warm == 0). A correct scheme repeats at most a few slow-path prologue
-	// statements per task; duplicated construction repeats the construction itself.
-	var coldWork, excess uint64
+	// oracle 2: the lazily built tables are constructed exactly once.
+	//
+	// Counting executions of individual statements is fragile: idempotent
+	// re-publication, read-only predicates, order-dependent bookkeeping ("largest
+	// call so far", "first error") and the initialisation of pooled scratch objects
+	// by several concurrent users all repeat a few first-use-only statements in
+	// correct code. What they never do is repeat a whole construction. The oracle
+	// therefore needs the AMOUNT of repeated first-use-only work to be that of a
+	// construction:
+	//  A. a statement that writes a lazily built constant (identified by content in
+	//     the reference process) ran at least twice as often as in the sequential
+	//     cold run, AND at least 1000 first-use-only statements were repeated in all;
+	//  B. (advisory only) the repeated first-use-only statements were, between them,
+	//     executed at least once more in full and the excess is at least 3000
+	//     statements. Not reported: indistinguishable from pooled scratch objects with
+	//     an expensive constructor being initialised by several concurrent users.
+	// "First-use-only" = runs in the sequential cold pass, not in the warm pass, not
+	// in the pass on fresh arguments (so argument-keyed caches never qualify).
+	var coldWork, excess, coldOfRepeated uint64
 	worst, worstExcess := -1, uint32(0)
 	for s := range field.VerifSites {
 		if s >= len(ro.Cold) || ro.Warm[s] != 0 || ro.Cold[s] == 0 || (s < len(ro.Fresh) && ro.Fresh[s] != 0) {
@@ -900,10 +882,56 @@ func runSched(t *SchedTrace, pol sched.Policy, schedSeed uint64, replay [][]sche
 		if conc > ro.Cold[s] {
 			e := conc - ro.Cold[s]
 			excess += uint64(e)
+			coldOfRepeated += uint64(ro.Cold[s])
 			if e > worstExcess {
 				worst, worstExcess = s, e
 			}
 		}
+	}
+	lazy := map[string]bool{}
+	for _, n := range ro.LazyConst {
+		lazy[n] = true
+	}
+	firstUse := 0
+	for s, sd := range field.VerifSites {
+		if !sd.Write || s >= len(ro.Cold) {
+			continue
+		}
+		// the written field (pkg.var.field) or, failing that, the whole variable must
+		// be a lazily built constant
+		root := sd.Root
+		if !lazy[root] {
+			if k := strings.LastIndex(root, "."); k > strings.Index(root, ".") {
+				root = root[:k]
+			}
+			if !lazy[root] {
+				continue
+			}
+		}
+		if ro.Warm[s] == 0 && ro.Cold[s] > 0 && (s >= len(ro.Fresh) || ro.Fresh[s] == 0) {
+			firstUse++
+			var conc uint32
+			tasksTouching := 0
+			for _, c := range res.Counts {
+				conc += c[s]
+				if c[s] > 0 {
+					tasksTouching++
+				}
+			}
+			if conc >= 2*ro.Cold[s] && excess >= 1000 {
+				so.Violation = viol("first-use-construction-not-exactly-once", sd.File,
+					fmt.Sprintf("the lazily built constant %s was constructed more than once: the write at %s executed %d times (by %d tasks) under this schedule, %d times in a sequential cold run, and %d first-use-only statements were repeated in all", sd.Root, siteName(s), conc, tasksTouching, ro.Cold[s], excess))
+				return so
+			}
+		}
+	}
+	so.Stats["first_use_write_sites"] = int64(firstUse)
+	// (Form B - a large amount of repeated first-use-only work without a rooted write -
+	// is recorded, not reported: a pooled scratch object with an expensive constructor,
+	// initialised by several concurrent users, has exactly the same signature.)
+	if excess >= 3000 && excess*10 >= coldOfRepeated*9 {
+		so.Stats["runs_with_repeated_first_use_work"] = 1
+		_, _ = worst, worstExcess
 	}
 	// reach probe, scheme-agnostic: pre-emptions that landed inside first-use-only code
 	var preFU int64
@@ -918,14 +946,6 @@ func runSched(t *SchedTrace, pol sched.Policy, schedSeed uint64, replay [][]sche
 	}
 	so.Stats["first_use_only_statements_cold"] = int64(coldWork)
 	so.Stats["first_use_only_statements_repeated"] = int64(excess)
-	// (2b is advisory: repeated first-use-only work cannot be told apart from the
-	// legitimate initialisation of pooled scratch objects by several concurrent users,
-	// so it is recorded in the evidence, not reported as a violation.)
-	if excess > 200 && excess*10 > coldWork {
-		so.Stats["runs_with_repeated_first_use_work"] = 1
-		_ = worst
-		_ = worstExcess
-	}
 	_ = warm
 	// distinct per-task site traces (reach measure)
 	return so
